@@ -5,7 +5,7 @@
 From PV Require Import Base.Prelude Store.Base Store.BaseProofs Store.Flags Store.ModSeq
      Store.Mailbox Store.MailboxProofs Store.View Store.ViewProofs Store.Compare
      Store.CompareProofs Store.Session Store.SelProofs Store.System Store.SystemProofs
-     Store.StoreExamples Wire.SeqSet.
+     Store.StoreExamples Store.SystemNs Store.SystemNsProofs Store.NsExamples Wire.SeqSet.
 
 (* Pure core (SelectedMailbox._compare): for all strictly ascending before/after uid
    lists, where _seqs_cache numbers `before`, every new uid is larger than every old
@@ -121,3 +121,89 @@ Theorem C01_example_compare :
   = [Expunge 3; Expunge 1; Exists 4].
 Proof. exact compare_example. Qed.
 Print Assumptions C01_example_compare.
+
+(* ------------------------------------------------------------------------------------
+   Mailbox CREATE / DELETE / RENAME while connections have the mailbox selected
+   (Store/SystemNs.v: the system above with a namespace; labels NCreate/NDelete/NRename
+   issued by any connection on any mailbox, the inner labels address mailboxes by name).
+   ------------------------------------------------------------------------------------ *)
+
+(* the invariant (the system invariant of the inner system, and: a connection that was sent
+   BYE has no selection) holds initially, is preserved by every label, holds in every
+   reachable state *)
+Theorem C01_inv_reachable_ns :
+  NInv ns_empty /\ (forall ns l, NInv ns -> NInv (fst (nstep ns l)))
+  /\ forall ls, NInv (nexec ns_empty ls).
+Proof. exact (conj ninv_empty (conj ninv_step ninv_reachable)). Qed.
+Print Assumptions C01_inv_reachable_ns.
+
+(* For every sequence of labels, now including CREATE, DELETE and RENAME by any connection
+   on any mailbox: the shadow client of every connection never fails — every response it is
+   sent can be applied to the list it holds; a BYE comes with nothing but the tagged
+   response, and then the server holds no selection for the connection and has closed it —
+   and afterwards each client holds exactly the list the server will use for that
+   connection's next command (none after BYE) *)
+Theorem C01_clients_in_sync_ns : forall ls,
+  exists cls, nshadow_exec (ns_empty, fun _ => None) ls = Some (nexec ns_empty ls, cls)
+              /\ forall s, cls s = nview (nexec ns_empty ls) s.
+Proof. exact ns_clients_in_sync. Qed.
+Print Assumptions C01_clients_in_sync_ns.
+
+(* in every reachable state a connection that has been told BYE is attached to no mailbox *)
+Theorem C01_closed_no_selection : forall ls s,
+  nmem s (ns_closed (nexec ns_empty ls)) = true -> attached (nexec ns_empty ls) s = None.
+Proof. exact ns_closed_no_selection. Qed.
+Print Assumptions C01_closed_no_selection.
+
+(* a connection whose selected name no longer denotes the mailbox object it selected
+   (deleted, renamed away, deleted and created again, INBOX renamed) is told: whatever it
+   sends next — SELECT/EXAMINE aside, and APPEND into the very object it has selected under
+   that object's new name (open finding C10-F4) — is answered with BYE, tagged responses or
+   the IDLE continuation only: no EXPUNGE, EXISTS, RECENT, FETCH or SEARCH data.  For all
+   states, not only reachable ones. *)
+Theorem C01_deleted_selection_is_told : forall ns s x c,
+  sel_of (ns_sys ns) s = Some x -> stale ns s = true ->
+  nmem s (ns_closed ns) = false -> ss_idle (sess_of (ns_sys ns) s) = false ->
+  match c with
+  | CSelect _ _ => True
+  | CAppend name _ _ =>
+    rid ns name = sel_box x \/ forall r, In r (snd (nstep ns (NOld (Cmd s c)))) -> told r
+  | _ => forall r, In r (snd (nstep ns (NOld (Cmd s c)))) -> told r
+  end.
+Proof. exact ns_stale_told. Qed.
+Print Assumptions C01_deleted_selection_is_told.
+
+(* from every reachable state, whatever happens (any label of any connection): a connection
+   that is attached to mailbox object j afterwards was attached to j before, unless the
+   label is its own SELECT/EXAMINE — a selection is never silently moved to another mailbox
+   (a re-created mailbox of the same name, the fresh INBOX after RENAME INBOX).  Mailbox
+   identities are allocated from a counter and never reused (SystemNs.alloc). *)
+Theorem C01_never_reattached : forall ls l s j,
+  let ns := nexec ns_empty ls in
+  (nlabel_actor l = Some s -> nstarts_fresh ns l = false) ->
+  attached (fst (nstep ns l)) s = Some j -> attached ns s = Some j.
+Proof. exact ns_never_reattached. Qed.
+Print Assumptions C01_never_reattached.
+
+(* non-vacuity: RENAME INBOX under three selections, DELETE by the examiner, CREATE by a
+   stale connection; NO [NONEXISTENT], BYE, the fresh INBOX and the renamed mailbox, evaluated
+   by the kernel *)
+Theorem C01_example_ns :
+  let ns := nexec ns_empty ns_demo in
+  ns_names ns = [(1, 3); (4, 1); (2, 4)]%N /\ ns_closed ns = [1; 3; 2]%N
+  /\ map (attached ns) [1; 2; 3; 4; 5]%N = [None; None; None; Some 3; Some 1]%N
+  /\ skipn 10 (snd (nrun ns_empty ns_demo))
+     = [[R (Tagged OK CNone)]; [R (Tagged NO CNonexistent)]; [R (Tagged NO CNonexistent)];
+        [R (Tagged NO CNonexistent)]; [Bye; R (Tagged OK CNone)]; [Bye; R (Tagged OK CNone)];
+        [Bye; R (Tagged OK CNone)]; [R (Tagged OK CNone)];
+        [R (Exists 0); R (Recent 0); R (UidNext 101); R (Tagged OK CReadWrite)];
+        [R (Tagged OK CNone)];
+        [R (Exists 3); R (Recent 0); R (UidNext 104); R (Unseen 1); R (Tagged OK CReadWrite)];
+        [R (Tagged OK CNone)]]%N
+  /\ match nshadow_exec (ns_empty, fun _ => None) ns_demo with
+     | Some (_, cls) => map cls [1; 2; 3; 4; 5]%N
+                        = [None; None; None; Some []; Some [101; 102; 103]]%N
+     | None => False
+     end.
+Proof. exact ns_demo_ok. Qed.
+Print Assumptions C01_example_ns.
